@@ -20,6 +20,9 @@ def anc(spec, t):
 def impl_obs(spec, quads):
     from maltoolbox.language import LanguageGraph
     lg = LanguageGraph(copy.deepcopy(spec))
+    return observe(lg, quads), lg
+
+def observe(lg, quads):
     names = [a.name for a in lg.assets]
     obs = {'assets': [[a.name, [[x.name, x.left_field.fieldname, x.right_field.fieldname] for x in a.associations],
                        [s.name for s in a.attack_steps], [s.name for s in a.super_assets], [s.name for s in a.sub_assets]] for a in lg.assets],
@@ -27,19 +30,20 @@ def impl_obs(spec, quads):
            'links': [[s.asset.name, s.name, t.asset.name, t.name] for s in lg.attack_steps for lst in s.children.values() for (t, _) in lst],
            'parent_links': [[p.asset.name, p.name, s.asset.name, s.name] for s in lg.attack_steps for lst in s.parents.values() for (p, _) in lst],
            'isSub': [[lg.get_asset_by_name(t).is_subasset_of(lg.get_asset_by_name(u)) for u in names] for t in names],
-           'lookups': []}
+           'lookups': [], 'own': all(any(lg.get_asset_by_name(n) is a for a in lg.assets) for n in names)}
     for f1, f2, t1, t2 in quads:
         try:
             r = lg.get_association_by_fields_and_assets(f1, f2, t1, t2)
             obs['lookups'].append(None if r is None else [r.name, r.left_field.fieldname, r.right_field.fieldname])
         except LookupError: obs['lookups'].append('LookupError')
-    return obs, lg
+    return obs
 
 def reference_probs(spec, obs, quads):
     probs = []
     names = [a['name'] for a in spec['assets']]
     by = {a['name']: a for a in spec['assets']}
     if [a[0] for a in obs['assets']] != names: probs.append('assets of the language graph differ from the declared assets')
+    if not obs.get('own', True): probs.append('lookup of an asset by name returns an object that is not an asset of this language graph')
     for a in obs['assets']:
         if a[3] != ([by[a[0]]['superAsset']] if by[a[0]]['superAsset'] else []): probs.append(f'super link of {a[0]} does not mirror extends')
         if sorted(a[4]) != sorted(n for n in names if by[n]['superAsset'] == a[0]): probs.append(f'sub links of {a[0]} do not mirror extends')
@@ -136,6 +140,7 @@ def run(seed, tier, lean) -> Result:
         cases.append((spec, quads, r, same_ends))
     model = run_driver([{'op': 'langgraph', 'case': i, 'lang': lang_payload(s), 'lookups': q} for i, (s, q, r, _) in enumerate(cases)]) if lean['build_ok'] else None
     mut_cases = []
+    prev = None
     for i, (spec, quads, r, same_ends) in enumerate(cases):
         res.evaluations += 1
         try:
@@ -145,6 +150,14 @@ def run(seed, tier, lean) -> Result:
                                             fingerprint='C15:wellformed-rejected:' + type(e).__name__, replay={'spec': spec})); continue
         probs = reference_probs(spec, obs, quads)
         inst = None
+        if not probs and prev is not None:
+            # the answers of the language graph built before must not change because another language (re-using asset and
+            # field names, as all generated languages do) was loaded in the same process
+            pp = reference_probs(prev[0], observe(prev[2], prev[1]), prev[1])
+            if pp:
+                res.violations.append(Violation(what='after another language was loaded: ' + pp[0][:260], fingerprint='C15:after-other-language:' + fingerprint(prev[0], pp[0]),
+                                                replay={'spec': prev[0], 'quads': prev[1], 'then_spec': spec, 'problems': pp}))
+        prev = (spec, quads, lg)
         if same_ends: res.bump('same role name on both ends (lookups only)')
         if not probs and not same_ends:
             try: probs, inst = overapprox_probs(spec, lg, r)
@@ -190,6 +203,12 @@ def replay(path):
         from maltoolbox.language import LanguageGraph
         try: LanguageGraph(copy.deepcopy(r['spec'])); print('accepted'); print('VIOLATION reproduced'); return 1
         except Exception as e: print('raises', type(e).__name__); print('not reproduced'); return 0
+    if r.get('then_spec'):
+        from maltoolbox.language import LanguageGraph
+        obs, lg = impl_obs(r['spec'], r['quads'])
+        LanguageGraph(copy.deepcopy(r['then_spec']))
+        probs = reference_probs(r['spec'], observe(lg, r['quads']), r['quads'])
+        print(probs[:3]); print('VIOLATION reproduced' if probs else 'not reproduced'); return 1 if probs else 0
     obs, lg = impl_obs(r['spec'], [])
     probs = reference_probs(r['spec'], obs, [])
     if not probs and r.get('inst'):
